@@ -181,6 +181,14 @@ theorem inplace_inverse_transform_rejected :
   refine ⟨by decide, ?_⟩
   unfold Same; decide
 
+/-- multivariate `mean` / `smooth` on a user-supplied `points` list: the list is only read -/
+theorem method_multi_on_points : freshTargets skMultiOnPoints = true := by decide
+/-- multivariate `covariance` on a user-supplied `points` list -/
+theorem method_multi_covariance_on_points : freshTargets skMultiCovarianceOnPoints = true := by decide
+/-- filling the `None` entries of the caller's `points` list in place (seeded change of round 5) is
+refused: list and dict ARGUMENTS are cells like any other input -/
+theorem fit_fills_points_list_rejected : freshTargets skFitFillsPointsList = false := by decide
+
 /-- Subset and parent.  After `sub = parent[a:b]` (a view), ANY history of checked calls — on the
 parent, on the subset, on both in any order, with any other arguments — leaves every cell of
 both unchanged: the shared buffer included. -/
